@@ -1157,3 +1157,18 @@ def _use_and_referenced(repo, ob, failure):
 
 GENERATORS.insert(0, ("C08.use.", _use_and_referenced))
 GENERATORS.insert(0, ("C08.container.", _use_and_referenced))
+
+
+def _random_arity(repo, ob, failure):
+    """random() takes no arguments: a call with arguments fails the transform instead of yielding a value"""
+    for c in ("random(1, 2, 3)", "random(1)"):
+        doc = '<svg><text xy="1" text="[{{%s}}]"/></svg>' % c
+        r = run_svgdx(repo, doc)
+        if r["rc"] == 0:
+            import re as _re
+            m = _re.search(r"\[[^\]]*\]", r["out"].split("</style>")[-1])
+            return {"input": doc, "observed": "accepted, text %s" % (m.group(0) if m else "?"), "expected": "an arity error"}
+    return None
+
+
+GENERATORS.insert(0, ("C14.fn.random", _random_arity))
